@@ -471,14 +471,13 @@ class Case:
         if c.tie: return 'band-bridge-tie'
         # bridges
         Rb = sc.r2(Fraction(1, 10**5) if not self.f32 else Fraction(1, 10**3))
+        # the bridge E-I must be clear of the polygon's own geometry: every edge of the stored outer loop and holes, and
+        # every earlier bridge (not of the crate's merged outline, which may already have lost vertices)
+        geo = list(c.O.edges)
+        for h in c.H: geo += h.edges
         for (ret, E, I, k0, remaining) in c.bridges:
             E2, I2 = self.p2(E), self.p2(I)
-            edges = []
-            r2 = self.proj(ret)
-            n = len(r2)
-            for k in range(n): edges.append((r2[k], r2[(k + 1) % n]))
-            for k in remaining: edges += c.H[k].edges
-            for (a, b) in edges:
+            for (a, b) in geo:
                 if a == b: continue
                 inc = None
                 if a == E2 or a == I2: inc = (a, b)
@@ -494,6 +493,7 @@ class Case:
                 if segs_touch2(E2, I2, a, b): return 'bridge-obstructed'
                 if near_seg2(a, E2, I2, Rb) or near_seg2(b, E2, I2, Rb) or near_seg2(E2, a, b, Rb) or near_seg2(I2, a, b, Rb):
                     return 'band-bridge-grazes'
+            geo.append((E2, I2))
         return None
 
     def net_area2x2(self, c):
